@@ -83,6 +83,8 @@ fn check_dir(st: &harness::dev::DevState, path: &str, expect: &BTreeSet<String>,
         }
         match &e.lfn {
             Lfn::Valid => {}
+            // no long-name slots at all: fine for a name that is exactly its 8.3 form (the name set is compared below)
+            Lfn::None => {}
             other => v.push(("C16/long-name-run-not-tied-to-alias".into(), format!("{ctx}: entry {:?}: {other:?}", e.name))),
         }
     }
